@@ -1439,6 +1439,8 @@ class World:
                 nacc = tp.apply("ew2", [nacc, n2], {"fn": "add"}, nconst)
         self.T[h] = acc
         self.S[h] = np.asarray(sacc)
+        # the value as NumPy computed it in the native dtypes (exact ties with later operands matter)
+        tp.set_val(nacc, self.S[h])
         ti = self._new_tinfo(h, acc, nconst, nacc)
         ti.entered = bool(self.tracking and self.guard)
         ti.made_by = "terminal"
